@@ -1,3 +1,898 @@
 package main
 
-func runMachines(kc *kernelCtx, blocks []*Block, only string, want map[string]bool) []*Unit { return nil }
+import (
+	"fmt"
+	"go/ast"
+	"go/token"
+	"go/types"
+	"regexp"
+	"sort"
+	"strings"
+
+	"golang.org/x/tools/go/ssa"
+)
+
+// ---------------------------------------------------------------------------
+// Layer M: machine contracts of operators
+//
+//	//@ operator Take
+//	//@   props C04
+//	//@   requires count >= 1
+//	//@   ghost n int = 0
+//	//@   inv index == n && n < count
+//	//@   on next(ctx, value) when n + 1 < count : emits Next(ctx, value) ; n' = n + 1
+//	//@   on next(ctx, value) when n + 1 >= count : emits Next(ctx, value), Complete(ctx)
+//
+// Roles (next/error/complete, optionally @<source variable>) are bound structurally: the closure
+// passed to a New*Observable* constructor is the subscribe function; the arguments of the
+// NewObserver[WithContext] call whose result is passed to <src>.SubscribeWithContext are the callbacks.
+// ---------------------------------------------------------------------------
+
+var observableCtors = map[string]bool{
+	"NewObservable": true, "NewSafeObservable": true, "NewUnsafeObservable": true, "NewEventuallySafeObservable": true,
+	"NewObservableWithContext": true, "NewSafeObservableWithContext": true, "NewUnsafeObservableWithContext": true, "NewEventuallySafeObservableWithContext": true,
+	"NewObservableWithConcurrencyMode": true,
+}
+
+var safeCtors = map[string]bool{"NewObservable": true, "NewSafeObservable": true, "NewObservableWithContext": true, "NewSafeObservableWithContext": true}
+
+type opCase struct {
+	Role    string
+	Params  []string
+	Guard   string
+	Emits   []string
+	Updates [][2]string
+	Clause  Clause
+}
+
+type opGhost struct {
+	Name, Sort, Init string
+}
+
+type OpSpec struct {
+	Name     string
+	Block    *Block
+	Requires []Clause
+	Ghosts   []opGhost
+	Inv      []Clause
+	Cases    []opCase
+	Site     int
+}
+
+var onRe = regexp.MustCompile(`^([A-Za-z@_0-9.]+)\s*\(([^)]*)\)\s*(?:when\s+(.*?))?\s*:\s*(.*)$`)
+
+func parseOpSpec(b *Block) (*OpSpec, error) {
+	sp := &OpSpec{Name: b.Name, Block: b}
+	for _, c := range b.Clauses {
+		switch c.Kind {
+		case "requires":
+			sp.Requires = append(sp.Requires, c)
+		case "inv":
+			sp.Inv = append(sp.Inv, c)
+		case "ghost":
+			// ghost n int = 0
+			parts := strings.SplitN(c.Text, "=", 2)
+			fs := strings.Fields(parts[0])
+			if len(fs) != 2 {
+				return nil, fmt.Errorf("%s:%d: ghost <name> <int|bool|val> = <init>", shortFile(c.File), c.Line)
+			}
+			g := opGhost{Name: fs[0], Sort: "Int"}
+			switch fs[1] {
+			case "bool":
+				g.Sort = "Bool"
+			case "val":
+				g.Sort = "U"
+			}
+			if len(parts) == 2 {
+				g.Init = strings.TrimSpace(parts[1])
+			}
+			sp.Ghosts = append(sp.Ghosts, g)
+		case "on":
+			m := onRe.FindStringSubmatch(c.Text)
+			if m == nil {
+				return nil, fmt.Errorf("%s:%d: cannot parse on-clause %q", shortFile(c.File), c.Line, c.Text)
+			}
+			oc := opCase{Role: m[1], Guard: strings.TrimSpace(m[3]), Clause: c}
+			for _, p := range strings.Split(m[2], ",") {
+				if p = strings.TrimSpace(p); p != "" {
+					oc.Params = append(oc.Params, p)
+				}
+			}
+			for _, act := range splitTop(m[4], ";") {
+				act = strings.TrimSpace(act)
+				if act == "" {
+					continue
+				}
+				if strings.HasPrefix(act, "emits") {
+					rest := strings.TrimSpace(strings.TrimPrefix(act, "emits"))
+					oc.Emits = []string{}
+					for _, e := range splitTop(rest, ",") {
+						if e = strings.TrimSpace(e); e != "" {
+							oc.Emits = append(oc.Emits, e)
+						}
+					}
+					continue
+				}
+				kv := strings.SplitN(act, "=", 2)
+				if len(kv) == 2 && strings.HasSuffix(strings.TrimSpace(kv[0]), "'") {
+					oc.Updates = append(oc.Updates, [2]string{strings.TrimSuffix(strings.TrimSpace(kv[0]), "'"), strings.TrimSpace(kv[1])})
+					continue
+				}
+				return nil, fmt.Errorf("%s:%d: cannot parse action %q", shortFile(c.File), c.Line, act)
+			}
+			if oc.Emits == nil {
+				oc.Emits = []string{}
+			}
+			sp.Cases = append(sp.Cases, oc)
+		case "site":
+			fmt.Sscan(c.Text, &sp.Site)
+		case "props", "note", "teardown", "mode", "alias", "userfn":
+		default:
+			return nil, fmt.Errorf("%s:%d: unknown operator clause %q", shortFile(c.File), c.Line, c.Kind)
+		}
+	}
+	return sp, nil
+}
+
+// ---------------------------------------------------------------------------
+// Structural role binding
+// ---------------------------------------------------------------------------
+
+type obsTriple struct {
+	Source string        // provenance name of the observable subscribed with this observer ("" if unknown)
+	Args   [3]ssa.Value  // onNext, onError, onComplete as passed
+	WithCtx bool
+	Call   *ssa.Call
+	In     *ssa.Function // function containing the NewObserver call
+}
+
+type opSite struct {
+	Ctor      string
+	CtorCall  *ssa.Call
+	Subscribe *ssa.Function
+	Triples   []obsTriple
+	Teardowns []*ssa.Function // closures returned by the subscribe function
+	Closures  []*ssa.Function // every closure in the subscribe tree (incl. subscribe itself)
+}
+
+func closureTree(fn *ssa.Function) []*ssa.Function {
+	out := []*ssa.Function{fn}
+	for _, a := range fn.AnonFuncs {
+		out = append(out, closureTree(a)...)
+	}
+	return out
+}
+
+func staticCalleeName(c *ssa.CallCommon) string {
+	if f := c.StaticCallee(); f != nil {
+		if o := f.Origin(); o != nil {
+			f = o
+		}
+		return f.Name()
+	}
+	return ""
+}
+
+// findSites finds the observable-constructor call sites in the closure tree of top.
+func findSites(top *ssa.Function) []*opSite {
+	var sites []*opSite
+	for _, fn := range closureTree(top) {
+		for _, b := range fn.Blocks {
+			for _, ins := range b.Instrs {
+				call, ok := ins.(*ssa.Call)
+				if !ok {
+					continue
+				}
+				name := staticCalleeName(call.Common())
+				if !observableCtors[name] || len(call.Call.Args) == 0 {
+					continue
+				}
+				mc, ok := call.Call.Args[0].(*ssa.MakeClosure)
+				if !ok {
+					continue
+				}
+				sub, ok := mc.Fn.(*ssa.Function)
+				if !ok {
+					continue
+				}
+				s := &opSite{Ctor: name, CtorCall: call, Subscribe: sub}
+				s.Closures = closureTree(sub)
+				s.Triples = findTriples(sub)
+				s.Teardowns = findTeardowns(sub)
+				sites = append(sites, s)
+			}
+		}
+	}
+	return sites
+}
+
+func findTriples(sub *ssa.Function) []obsTriple {
+	var out []obsTriple
+	for _, fn := range closureTree(sub) {
+		for _, b := range fn.Blocks {
+			for _, ins := range b.Instrs {
+				call, ok := ins.(*ssa.Call)
+				if !ok {
+					continue
+				}
+				name := staticCalleeName(call.Common())
+				if name != "NewObserverWithContext" && name != "NewObserver" {
+					continue
+				}
+				if len(call.Call.Args) != 3 {
+					continue
+				}
+				t := obsTriple{Call: call, WithCtx: name == "NewObserverWithContext", In: fn}
+				copy(t.Args[:], call.Call.Args)
+				// who subscribes with it?
+				for _, r := range *call.Referrers() {
+					if c2, ok := r.(*ssa.Call); ok && c2.Common().IsInvoke() && strings.HasPrefix(c2.Common().Method.Name(), "Subscribe") {
+						t.Source = valueName(c2.Common().Value)
+					}
+				}
+				out = append(out, t)
+			}
+		}
+	}
+	return out
+}
+
+// valueName traces a value back to a free variable / parameter / cell name.
+func valueName(v ssa.Value) string {
+	switch v := v.(type) {
+	case *ssa.UnOp:
+		if v.Op == token.MUL {
+			return valueName(v.X)
+		}
+	case *ssa.FreeVar:
+		return v.Name()
+	case *ssa.Parameter:
+		return v.Name()
+	case *ssa.Alloc:
+		return v.Comment
+	case *ssa.ChangeInterface:
+		return valueName(v.X)
+	case *ssa.MakeInterface:
+		return valueName(v.X)
+	case *ssa.Phi:
+		return v.Comment
+	case *ssa.Call:
+		return staticCalleeName(v.Common()) + "()"
+	case *ssa.Extract:
+		return valueName(v.Tuple)
+	case *ssa.IndexAddr:
+		return valueName(v.X) + "[]"
+	case *ssa.FieldAddr:
+		return valueName(v.X)
+	}
+	return ""
+}
+
+func findTeardowns(sub *ssa.Function) []*ssa.Function {
+	var out []*ssa.Function
+	for _, b := range sub.Blocks {
+		for _, ins := range b.Instrs {
+			ret, ok := ins.(*ssa.Return)
+			if !ok || len(ret.Results) != 1 {
+				continue
+			}
+			v := ret.Results[0]
+			if ct, ok := v.(*ssa.ChangeType); ok {
+				v = ct.X
+			}
+			if mc, ok := v.(*ssa.MakeClosure); ok {
+				if f, ok := mc.Fn.(*ssa.Function); ok && !strings.HasSuffix(f.Name(), "$bound") {
+					out = append(out, f)
+				}
+			}
+		}
+	}
+	return out
+}
+
+// cellsWrittenBy lists the free-variable cells a closure (and the closures it contains) stores to.
+func cellsWrittenBy(fns []*ssa.Function) map[string]bool {
+	out := map[string]bool{}
+	for _, f := range fns {
+		for _, fn := range closureTree(f) {
+			for _, b := range fn.Blocks {
+				for _, ins := range b.Instrs {
+					switch ins := ins.(type) {
+					case *ssa.Store:
+						if fv, ok := ins.Addr.(*ssa.FreeVar); ok {
+							out[fv.Name()] = true
+						}
+						if fa, ok := ins.Addr.(*ssa.FieldAddr); ok {
+							if fv, ok := fa.X.(*ssa.FreeVar); ok {
+								out[fv.Name()] = true
+							}
+						}
+					case *ssa.MapUpdate:
+						if n := valueName(ins.Map); n != "" {
+							out[n] = true
+						}
+					}
+				}
+			}
+		}
+	}
+	return out
+}
+
+// cellTypes collects name -> element type of every free variable / named allocation in the operator's closures.
+func cellTypes(top *ssa.Function) map[string]types.Type {
+	out := map[string]types.Type{}
+	for _, fn := range closureTree(top) {
+		for _, fv := range fn.FreeVars {
+			if pt, ok := fv.Type().Underlying().(*types.Pointer); ok {
+				if _, dup := out[fv.Name()]; !dup {
+					out[fv.Name()] = pt.Elem()
+				}
+			}
+		}
+		for _, b := range fn.Blocks {
+			for _, ins := range b.Instrs {
+				if a, ok := ins.(*ssa.Alloc); ok && a.Comment != "" && a.Heap {
+					if pt, ok := a.Type().Underlying().(*types.Pointer); ok {
+						if _, dup := out[a.Comment]; !dup {
+							out[a.Comment] = pt.Elem()
+						}
+					}
+				}
+			}
+		}
+	}
+	return out
+}
+
+// ---------------------------------------------------------------------------
+// Running an operator contract
+// ---------------------------------------------------------------------------
+
+var emitAlias = map[string]string{
+	"Next": "destination.NextWithContext", "Error": "destination.ErrorWithContext", "Complete": "destination.CompleteWithContext",
+}
+
+func isTerminalEvent(name string) bool {
+	return strings.HasSuffix(name, ".ErrorWithContext") || strings.HasSuffix(name, ".CompleteWithContext") || strings.HasSuffix(name, ".Error") || strings.HasSuffix(name, ".Complete")
+}
+
+type machineRun struct {
+	kc    *kernelCtx
+	sp    *OpSpec
+	top   *ssa.Function
+	site  *opSite
+	cells map[string]types.Type
+	u     *Unit
+	props []string
+}
+
+func runMachines(kc *kernelCtx, blocks []*Block, only string, want map[string]bool) []*Unit {
+	var units []*Unit
+	for _, b := range blocks {
+		if b.Kind != "operator" {
+			continue
+		}
+		if only != "" && !strings.Contains(b.Name, only) {
+			continue
+		}
+		if len(want) > 0 && !anyProp(b, want) {
+			continue
+		}
+		units = append(units, runOperator(kc, b))
+	}
+	return units
+}
+
+func runOperator(kc *kernelCtx, b *Block) *Unit {
+	u := &Unit{Name: b.Name, Props: b.props(), Layer: "M"}
+	sp, err := parseOpSpec(b)
+	if err != nil {
+		u.Errs = append(u.Errs, err.Error())
+		return u
+	}
+	fns := kc.w.allFuncs(b.Pkg)
+	top := fns[b.Name]
+	if top == nil {
+		u.Errs = append(u.Errs, fmt.Sprintf("operator contract %s (%s:%d) does not bind: no such function in %s", b.Name, shortFile(b.File), b.Line, b.Pkg))
+		return u
+	}
+	sites := findSites(top)
+	if len(sites) == 0 {
+		u.Errs = append(u.Errs, fmt.Sprintf("operator contract %s does not bind: no observable constructor call with a literal subscribe function", b.Name))
+		return u
+	}
+	if sp.Site >= len(sites) {
+		u.Errs = append(u.Errs, fmt.Sprintf("operator contract %s: site %d not found (%d sites)", b.Name, sp.Site, len(sites)))
+		return u
+	}
+	mr := &machineRun{kc: kc, sp: sp, top: top, site: sites[sp.Site], cells: cellTypes(top), u: u, props: b.props()}
+	u.Funcs = append(u.Funcs, b.Name)
+	for _, f := range mr.site.Closures {
+		u.Funcs = append(u.Funcs, funcKey(f))
+	}
+	mr.run()
+	u.Errs = dedup(u.Errs)
+	return u
+}
+
+func (mr *machineRun) roleCases(role string) []opCase {
+	var out []opCase
+	for _, c := range mr.sp.Cases {
+		if c.Role == role {
+			out = append(out, c)
+		}
+	}
+	return out
+}
+
+func (mr *machineRun) run() {
+	sp := mr.sp
+	site := mr.site
+	// which roles exist
+	type roleBind struct {
+		name   string
+		triple *obsTriple
+		idx    int
+	}
+	var roles []roleBind
+	kinds := []string{"next", "error", "complete"}
+	for ti := range site.Triples {
+		t := &site.Triples[ti]
+		for i, k := range kinds {
+			name := k
+			if len(site.Triples) > 1 {
+				name = k + "@" + t.Source
+			}
+			roles = append(roles, roleBind{name, t, i})
+		}
+	}
+	used := map[string]bool{}
+	for _, rb := range roles {
+		cases := mr.roleCases(rb.name)
+		if len(cases) == 0 && len(site.Triples) > 1 {
+			// also accept un-suffixed role names when they are unambiguous for this kind
+			continue
+		}
+		used[rb.name] = true
+		if len(cases) == 0 {
+			// default: identity forward for error / complete
+			switch kinds[rb.idx] {
+			case "error":
+				cases = []opCase{{Role: rb.name, Params: []string{"ctx", "err"}, Emits: []string{"Error(ctx, err)"}}}
+			case "complete":
+				cases = []opCase{{Role: rb.name, Params: []string{"ctx"}, Emits: []string{"Complete(ctx)"}}}
+			default:
+				mr.u.Errs = append(mr.u.Errs, fmt.Sprintf("operator %s: no `on %s` clause", sp.Name, rb.name))
+				continue
+			}
+		}
+		mr.runRole(rb.name, rb.triple, rb.idx, cases)
+	}
+	for _, c := range sp.Cases {
+		if !used[c.Role] && c.Role != "subscribe" {
+			mr.u.Errs = append(mr.u.Errs, fmt.Sprintf("%s:%d: role %s does not bind to any observer callback of %s", shortFile(c.Clause.File), c.Clause.Line, c.Role, sp.Name))
+		}
+	}
+	mr.runInit()
+}
+
+func (mr *machineRun) newExec() (*Exec, *State) {
+	d := newDecls()
+	x := newExec(mr.kc.w, d)
+	x.NamedCells = true
+	st := &State{Heap: map[string]SVal{}, Zero: map[string]bool{}, Init: map[string]SVal{}, Held: map[string]bool{}, Ghost: map[string]string{}, Named: map[string]string{}, NamedV: map[string]SVal{}, Written: map[string]bool{}}
+	// the destination handed to a subscribe function is the gate built by SubscribeWithContext (layer K): never nil
+	st.assume(not(eq(q(d.constOf("destination", "U")), "nil")))
+	for _, g := range mr.sp.Ghosts {
+		st.Ghost[g.Name] = q(d.constOf(g.Name, g.Sort))
+		st.Named["ghostsort:"+g.Name] = g.Sort
+		st.Named["ghost0:"+g.Name] = st.Ghost[g.Name]
+	}
+	return x, st
+}
+
+func (mr *machineRun) env(x *Exec, st *State, vars map[string]SVal) *Env {
+	userFn := map[string]bool{}
+	sigs := map[string]*types.Signature{}
+	for name, t := range mr.cells {
+		if sig, ok := t.Underlying().(*types.Signature); ok {
+			userFn[name] = true
+			sigs[name] = sig
+		}
+	}
+	env := &Env{X: x, St: st, Vars: vars, Events: st.Events, Alias: emitAlias, UserFn: userFn, UserSig: sigs,
+		Track: func(n string) bool { return strings.HasPrefix(n, "destination.") }}
+	env.CellType = func(name string) types.Type { return mr.cells[name] }
+	return env
+}
+
+// touch creates pre-state symbols for every cell mentioned in the operator's clauses.
+func (mr *machineRun) touch(x *Exec, st *State) {
+	idRe := regexp.MustCompile(`[A-Za-z_][A-Za-z0-9_]*`)
+	seen := map[string]bool{}
+	var texts []string
+	for _, c := range mr.sp.Block.Clauses {
+		texts = append(texts, c.Text)
+	}
+	for _, t := range texts {
+		for _, id := range idRe.FindAllString(t, -1) {
+			if seen[id] {
+				continue
+			}
+			seen[id] = true
+			if ct, ok := mr.cells[id]; ok {
+				if _, isFunc := ct.Underlying().(*types.Signature); isFunc {
+					continue
+				}
+				x.load(st, id, ct, token.NoPos)
+			}
+		}
+	}
+}
+
+func (mr *machineRun) assumeRequiresInv(x *Exec, st *State, vars map[string]SVal) {
+	env := mr.env(x, st, vars)
+	for _, c := range append(append([]Clause{}, mr.sp.Requires...), mr.sp.Inv...) {
+		g, err := env.evalBool(c.Text)
+		if err != nil {
+			mr.u.Errs = append(mr.u.Errs, fmt.Sprintf("%s:%d: %v", shortFile(c.File), c.Line, err))
+			continue
+		}
+		st.assume(g)
+	}
+}
+
+func (mr *machineRun) hooks(x0 *Exec) Hooks {
+	h := mr.kc.hooks(mr.sp.Block, nil, "", map[string]bool{}, func(st *State, ex *Exit) *Env { return mr.env(x0, st, map[string]SVal{}) })
+	tdCells := cellsWrittenBy(mr.site.Teardowns)
+	h.OnEvent = func(x *Exec, st *State, ev *Event) {
+		if !strings.HasPrefix(ev.Name, "destination.") {
+			return
+		}
+		// a downstream call may run the teardown re-entrantly: the cells it writes are unknown afterwards
+		for name := range tdCells {
+			for key, old := range st.Heap {
+				if key == name || strings.HasPrefix(key, name+".") {
+					st.Heap[key] = x.freshLike(st, key+"@reentrant", old, old.GoT)
+				}
+			}
+		}
+	}
+	return h
+}
+
+type pathEnd struct {
+	st *State
+	ex Exit
+}
+
+// effective returns the destination events of a path truncated after the first terminal.
+func effective(evs []Event) (out []Event, closed bool) {
+	for _, ev := range evs {
+		if !strings.HasPrefix(ev.Name, "destination.") {
+			continue
+		}
+		out = append(out, ev)
+		if isTerminalEvent(ev.Name) {
+			return out, true
+		}
+	}
+	return out, false
+}
+
+func (mr *machineRun) runRole(role string, t *obsTriple, idx int, cases []opCase) {
+	x, st := mr.newExec()
+	x.H = mr.hooks(x)
+	mr.touch(x, st)
+	var ends []pathEnd
+	arg := t.Args[idx]
+	var params []SVal
+	var cbSig *types.Signature
+	if s, ok := arg.Type().Underlying().(*types.Signature); ok {
+		cbSig = s
+	}
+	if cbSig == nil {
+		mr.u.Errs = append(mr.u.Errs, fmt.Sprintf("%s/%s: callback is not a function", mr.sp.Name, role))
+		return
+	}
+	for i := 0; i < cbSig.Params().Len(); i++ {
+		params = append(params, x.symbolic(st, fmt.Sprintf("%s$%d", role, i), cbSig.Params().At(i).Type()))
+	}
+	vars := map[string]SVal{}
+	pnames := cases[0].Params
+	for i, p := range pnames {
+		if i < len(params) {
+			vars[p] = params[i]
+		}
+	}
+	mr.assumeRequiresInv(x, st, vars)
+	pos := ""
+	switch a := arg.(type) {
+	case *ssa.MakeClosure:
+		fn := a.Fn.(*ssa.Function)
+		pos = x.pos(fn.Pos())
+		if strings.HasSuffix(fn.Name(), "$bound") {
+			// forward: destination.X passed as a method value
+			recvName := valueName(a.Bindings[0])
+			ev := Event{Name: recvName + "." + strings.TrimSuffix(fn.Name(), "$bound"), Args: params}
+			st.Events = append(st.Events, ev)
+			ends = append(ends, pathEnd{st, Exit{Kind: ExitReturn}})
+		} else {
+			x.run(st, fn, params, nil, func(s2 *State, ex Exit) { ends = append(ends, pathEnd{s2, ex}) })
+		}
+	default:
+		// a user-supplied function or something we cannot see through
+		mr.u.Errs = append(mr.u.Errs, fmt.Sprintf("%s/%s: callback is not a literal closure (%T)", mr.sp.Name, role, arg))
+		return
+	}
+	byName := map[string][]Obl{}
+	notes := map[string]string{}
+	var pcs [][]string
+	add := func(name, goal, note string, pc []string) {
+		byName[name] = append(byName[name], Obl{Name: name, Goal: goal, PC: pc})
+		if _, ok := notes[name]; !ok {
+			notes[name] = note
+		}
+	}
+	for _, e := range ends {
+		if e.st.Err != "" {
+			mr.u.Errs = append(mr.u.Errs, fmt.Sprintf("%s/%s: %s", mr.sp.Name, role, e.st.Err))
+			continue
+		}
+		for _, o := range e.st.Obls {
+			byName[o.Name] = append(byName[o.Name], o)
+			if _, ok := notes[o.Name]; !ok {
+				notes[o.Name] = o.Note
+			}
+		}
+		if e.ex.Kind == ExitStop {
+			continue
+		}
+		pcs = append(pcs, e.st.PC)
+		add("nopanic", boolLit(e.ex.Kind != ExitPanic), "the callback does not panic", e.st.PC)
+		evs, closed := effective(e.st.Events)
+		var guards []string
+		for ci, c := range cases {
+			cv := map[string]SVal{}
+			for i, p := range c.Params {
+				if i < len(params) {
+					cv[p] = params[i]
+				}
+			}
+			envOld := mr.env(x, e.st, cv)
+			envOld.Old = true
+			guard := "true"
+			if c.Guard != "" {
+				g, err := envOld.evalBool(c.Guard)
+				if err != nil {
+					mr.u.Errs = append(mr.u.Errs, fmt.Sprintf("%s:%d: guard: %v", shortFile(c.Clause.File), c.Clause.Line, err))
+					g = "false"
+				}
+				guard = g
+			}
+			guards = append(guards, guard)
+			// emits
+			match := "true"
+			if len(evs) != len(c.Emits) {
+				match = "false"
+			} else {
+				var cs []string
+				for i, pat := range c.Emits {
+					ex, err := parseSpecExpr(pat)
+					if err != nil {
+						mr.u.Errs = append(mr.u.Errs, fmt.Sprintf("%s:%d: %v", shortFile(c.Clause.File), c.Clause.Line, err))
+						cs = append(cs, "false")
+						continue
+					}
+					m, err := envOld.matchEvent(ex, evs[i])
+					if err != nil {
+						mr.u.Errs = append(mr.u.Errs, fmt.Sprintf("%s:%d: emits: %v", shortFile(c.Clause.File), c.Clause.Line, err))
+						m = "false"
+					}
+					cs = append(cs, m)
+				}
+				match = and(cs...)
+			}
+			add("emits", imp(guard, match), fmt.Sprintf("on %s: the calls made on destination (up to the first terminal) are exactly the contract's emits", role), e.st.PC)
+			// invariant after, unless the operator closed its output
+			specCloses := false
+			for _, em := range c.Emits {
+				if strings.HasPrefix(em, "Error(") || strings.HasPrefix(em, "Complete(") {
+					specCloses = true
+				}
+			}
+			if !closed && !specCloses {
+				post := e.st.clone()
+				for _, up := range c.Updates {
+					v, err := envOld.evalAny(up[1])
+					if err != nil {
+						mr.u.Errs = append(mr.u.Errs, fmt.Sprintf("%s:%d: update of %s: %v", shortFile(c.Clause.File), c.Clause.Line, up[0], err))
+						continue
+					}
+					post.Ghost[up[0]] = x.termOf(e.st, v)
+				}
+				envPost := mr.env(x, post, cv)
+				var is []string
+				for _, ic := range mr.sp.Inv {
+					g, err := envPost.evalBool(ic.Text)
+					if err != nil {
+						mr.u.Errs = append(mr.u.Errs, fmt.Sprintf("%s:%d: inv: %v", shortFile(ic.File), ic.Line, err))
+						g = "false"
+					}
+					is = append(is, g)
+				}
+				add("inv", imp(guard, and(is...)), fmt.Sprintf("on %s: the invariant is re-established (ghost updates applied) unless the output was closed", role), append(append([]string{}, e.st.PC...), post.PC[len(e.st.PC):]...))
+			}
+			_ = ci
+		}
+		add("exhaustive", or(guards...), fmt.Sprintf("on %s: the contract's cases cover every state allowed by the invariant", role), e.st.PC)
+	}
+	mr.emit(x, role, byName, notes, pcs, pos)
+}
+
+func (mr *machineRun) emit(x *Exec, role string, byName map[string][]Obl, notes map[string]string, pcs [][]string, pos string) {
+	names := make([]string, 0, len(byName))
+	for n := range byName {
+		names = append(names, n)
+	}
+	sort.Strings(names)
+	for _, n := range names {
+		smt, trivial, _ := mergeObls(x.D, n, byName[n])
+		o := OutObl{Name: mr.sp.Name + "/" + role + "/" + n, Props: mr.props, Layer: "M", Func: mr.sp.Name, Clause: notes[n], Pos: pos, Paths: len(byName[n]), Contract: shortFile(mr.sp.Block.File)}
+		if trivial {
+			o.Backend, o.Status = "structural", "discharged"
+		} else {
+			o.Backend, o.SMT = "smt", smt
+		}
+		mr.u.Obls = append(mr.u.Obls, o)
+	}
+	if len(pcs) > 0 {
+		mr.u.Obls = append(mr.u.Obls, OutObl{Name: mr.sp.Name + "/" + role + "/cover", Props: mr.props, Layer: "M", Func: mr.sp.Name, Clause: "vacuity cover: requires and invariant are satisfiable on some path", Backend: "smt", SMT: coverQuery(x.D, pcs), Cover: true, Paths: len(pcs), Contract: shortFile(mr.sp.Block.File)})
+	}
+}
+
+// runInit executes the subscribe function and checks, at every upstream subscription it makes, that the
+// invariant holds with the ghosts' initial values; it also checks the `on subscribe` emits if present.
+func (mr *machineRun) runInit() {
+	x, st := mr.newExec()
+	x.H = mr.hooks(x)
+	sub := mr.site.Subscribe
+	var params []SVal
+	for _, p := range sub.Params {
+		params = append(params, x.symbolic(st, p.Name(), p.Type()))
+	}
+	// requires are assumed (they are established by the constructor, checked separately)
+	mr.touchRequires(x, st)
+	env0 := mr.env(x, st, map[string]SVal{})
+	for _, c := range mr.sp.Requires {
+		if g, err := env0.evalBool(c.Text); err == nil {
+			st.assume(g)
+		}
+	}
+	for _, g := range mr.sp.Ghosts {
+		if g.Init != "" {
+			v, err := env0.evalAny(g.Init)
+			if err == nil {
+				st.Ghost[g.Name] = x.termOf(st, v)
+			}
+		}
+	}
+	byName := map[string][]Obl{}
+	notes := map[string]string{}
+	var pcs [][]string
+	checked := 0
+	h := x.H
+	prevOnEvent := h.OnEvent
+	h.OnEvent = func(x *Exec, st *State, ev *Event) {
+		if prevOnEvent != nil {
+			prevOnEvent(x, st, ev)
+		}
+		if strings.HasSuffix(ev.Name, ".SubscribeWithContext") || strings.HasSuffix(ev.Name, ".Subscribe") {
+			env := mr.env(x, st, map[string]SVal{})
+			var is []string
+			for _, ic := range mr.sp.Inv {
+				g, err := env.evalBool(ic.Text)
+				if err != nil {
+					mr.u.Errs = append(mr.u.Errs, fmt.Sprintf("%s:%d: inv at subscription: %v", shortFile(ic.File), ic.Line, err))
+					g = "false"
+				}
+				is = append(is, g)
+			}
+			checked++
+			x.obl(st, "inv-initial", and(is...), "the invariant holds, with the ghosts' initial values, when the upstream is subscribed", ev.Pos)
+		}
+	}
+	x.H = h
+	var ends []pathEnd
+	x.run(st, sub, params, nil, func(s2 *State, ex Exit) { ends = append(ends, pathEnd{s2, ex}) })
+	subCases := mr.roleCases("subscribe")
+	for _, e := range ends {
+		if e.st.Err != "" {
+			mr.u.Errs = append(mr.u.Errs, fmt.Sprintf("%s/subscribe: %s", mr.sp.Name, e.st.Err))
+			continue
+		}
+		for _, o := range e.st.Obls {
+			byName[o.Name] = append(byName[o.Name], o)
+			if _, ok := notes[o.Name]; !ok {
+				notes[o.Name] = o.Note
+			}
+		}
+		if e.ex.Kind == ExitStop {
+			continue
+		}
+		pcs = append(pcs, e.st.PC)
+		if len(subCases) > 0 {
+			evs, _ := effective(e.st.Events)
+			for _, c := range subCases {
+				cv := map[string]SVal{}
+				for i, p := range c.Params {
+					if i < len(params) {
+						cv[p] = params[i]
+					}
+				}
+				envOld := mr.env(x, e.st, cv)
+				envOld.Old = true
+				guard := "true"
+				if c.Guard != "" {
+					g, err := envOld.evalBool(c.Guard)
+					if err != nil {
+						g = "false"
+						mr.u.Errs = append(mr.u.Errs, fmt.Sprintf("%s:%d: guard: %v", shortFile(c.Clause.File), c.Clause.Line, err))
+					}
+					guard = g
+				}
+				match := "true"
+				if len(evs) != len(c.Emits) {
+					match = "false"
+				} else {
+					var cs []string
+					for i, pat := range c.Emits {
+						ex, err := parseSpecExpr(pat)
+						if err != nil {
+							cs = append(cs, "false")
+							continue
+						}
+						m, err := envOld.matchEvent(ex, evs[i])
+						if err != nil {
+							mr.u.Errs = append(mr.u.Errs, fmt.Sprintf("%s:%d: emits: %v", shortFile(c.Clause.File), c.Clause.Line, err))
+							m = "false"
+						}
+						cs = append(cs, m)
+					}
+					match = and(cs...)
+				}
+				byName["emits"] = append(byName["emits"], Obl{Name: "emits", Goal: imp(guard, match), PC: e.st.PC})
+				notes["emits"] = "on subscribe: the calls made on destination by the subscribe function are exactly the contract's emits"
+			}
+		}
+	}
+	if len(mr.sp.Inv) > 0 && checked == 0 && len(mr.site.Triples) > 0 {
+		mr.u.Errs = append(mr.u.Errs, fmt.Sprintf("%s: the subscribe function makes no upstream subscription at which the invariant could be initialised", mr.sp.Name))
+	}
+	mr.emit(x, "subscribe", byName, notes, pcs, x.pos(sub.Pos()))
+}
+
+func (mr *machineRun) touchRequires(x *Exec, st *State) {
+	idRe := regexp.MustCompile(`[A-Za-z_][A-Za-z0-9_]*`)
+	for _, c := range mr.sp.Requires {
+		for _, id := range idRe.FindAllString(c.Text, -1) {
+			if ct, ok := mr.cells[id]; ok {
+				if _, isFunc := ct.Underlying().(*types.Signature); !isFunc {
+					x.load(st, id, ct, token.NoPos)
+				}
+			}
+		}
+	}
+}
+
+// evalAny evaluates an expression of any sort.
+func (e *Env) evalAny(expr string) (SVal, error) {
+	ex, err := parseSpecExpr(expr)
+	if err != nil {
+		return SVal{}, err
+	}
+	return e.eval(ex)
+}
+
+var _ = ast.NewIdent
